@@ -519,6 +519,17 @@ pub fn corpus() -> Vec<Item> {
         spec2.tree = Node::leaf(5);
         spec2.lf_global_prefix = Some(write_patches(&refs, 1, &CodeOpts { use_prefix: true, ..Default::default() }));
         out.push(item("rgba-24x20-patches-ecup2", &img, vec![encode_frame(&img, &d0), write_modular_frame(&img, &spec2).bytes], 1));
+        // and with the whole patched frame coded at half resolution (frame upsampling 2): patches are applied before the
+        // final upsampling, at positions of the 12x10 coded frame
+        let mut f3 = FrameHeader::modular_lossless(&img);
+        f3.flags |= FLAG_PATCHES;
+        f3.upsampling = 2;
+        f3.ec_upsampling = vec![2];
+        let refs3 = vec![PatchRef { ref_idx: 1, x0: 1, y0: 1, w: 5, h: 4, targets: vec![PatchTarget { x: 1, y: 2, blending: vec![pb(PATCH_REPLACE), pb(PATCH_REPLACE)] }, PatchTarget { x: 6, y: 5, blending: vec![pb(PATCH_BLEND_ABOVE), pb(PATCH_BLEND_ABOVE)] }] }];
+        let mut spec3 = ModularFrameSpec::new(f3, planes(12, 10, 4, 255, 5));
+        spec3.tree = Node::leaf(5);
+        spec3.lf_global_prefix = Some(write_patches(&refs3, 1, &CodeOpts { use_prefix: true, ..Default::default() }));
+        out.push(item("rgba-24x20-patches-up2", &img, vec![encode_frame(&img, &d0), write_modular_frame(&img, &spec3).bytes], 1));
     }
     let _ = BitWriter::new();
     out
